@@ -24,6 +24,12 @@ STRUCTURES = {
                  [('A', 'B', 3), ('B', 'C', 3), ('C', 'A', 3)], False),
     'chain3': (dict(A=(0, 0, 0.4), B=(0.1, 0.02, 0.46), C=(0.1, 0.12, 0.5), D=(0.22, 0.14, 0.5)),
                [('A', 'B', 2), ('B', 'C', 2), ('C', 'D', 3)], False),
+    # three wires on one point; splitting the third right next to that point makes the inherited exact-kernel
+    # heuristic treat its remainder as unconnected to the second wire (recorded finding of C06)
+    'hub3': (dict(P0=(0.0, 0.0, 0.5), P1=(-0.16394723650919502, -0.014377916009860395, 0.5247575701128033),
+                  P2=(0.0803274660912237, -0.003934973683876981, 0.5547213521751705),
+                  P3=(-0.023388367034398908, 0.010996207013328589, 0.3569739884446435)),
+             [('P0', 'P1', 2), ('P2', 'P0', 4), ('P0', 'P3', 4)], False),
     'inv_l': (dict(G=(0, 0, 0), A=(0, 0, 0.16), B=(0.14, 0, 0.16)), [('G', 'A', 3), ('A', 'B', 3)], True),
     'sloping': (dict(G=(0, 0, 0), A=(0.08, 0, 0.14), B=(0.08, 0.12, 0.14)), [('G', 'A', 3), ('A', 'B', 2)], True),
     'two_grounded': (dict(G1=(0, 0, 0), A=(0.03, 0, 0.15), B=(0.17, 0.02, 0.15), G2=(0.2, 0.02, 0)),
@@ -32,6 +38,83 @@ STRUCTURES = {
                               [('G', 'A', 4), ('C', 'D', 4)], True),
 }
 RADIUS = 3e-4       # wavelengths
+
+
+def _seg_dist(a0, a1, b0, b1, n=7):
+    ts = np.linspace(0, 1, n)
+    pa = a0[None, :] + ts[:, None] * (a1 - a0)[None, :]
+    pb = b0[None, :] + ts[:, None] * (b1 - b0)[None, :]
+    return float(np.sqrt(((pa[:, None, :] - pb[None, :, :]) ** 2).sum(-1)).min())
+
+
+def random_structure(rnd, ground):
+    """a random connected tree of 2 .. 4 straight wires inside the domain of C06: junction angles >= 40 degrees,
+       wires that do not share a point at least two segment lengths apart, over ground one wire standing on the
+       plane (rising at 35 degrees or more), everything else at least a segment above it"""
+    for _attempt in range(400):
+        nw = rnd.choice([2, 3, 3, 4])
+        pts = {'P0': np.array([0.0, 0.0, 0.0 if ground else 0.5])}
+        wires = []
+        ok = True
+        for k in range(nw):
+            a = rnd.choice(sorted(pts)) if k else 'P0'
+            if ground and a == 'P0' and k:
+                a = rnd.choice([p for p in sorted(pts) if p != 'P0'])
+            length = rnd.uniform(0.08, 0.2)
+            ns = rnd.choice([2, 3, 4])
+            for _t in range(60):
+                d = np.array([rnd.gauss(0, 1) for _ in range(3)])
+                d /= np.linalg.norm(d)
+                if ground and k == 0:
+                    d[2] = abs(d[2])
+                    if d[2] < math.sin(math.radians(35)):
+                        continue
+                b = pts[a] + d * length
+                if ground and b[2] < 1.5 * length / ns:
+                    continue
+                good = True
+                for (p, q, n2) in wires:
+                    shares = a in (p, q)
+                    if shares:
+                        other = pts[q] - pts[p] if p == a else pts[p] - pts[q]
+                        c = float(np.dot(other, d) / np.linalg.norm(other))
+                        if c > math.cos(math.radians(40)):
+                            good = False
+                    else:
+                        seg = max(length / ns, np.linalg.norm(pts[q] - pts[p]) / n2)
+                        if _seg_dist(pts[a], b, pts[p], pts[q]) < 2.2 * seg:
+                            good = False
+                    # the far end must keep its distance from every other wire, too
+                    if good and not shares is False and False:
+                        pass
+                if good:
+                    # the new far end against wires sharing the start point: at least a segment away from them
+                    for (p, q, n2) in wires:
+                        if a in (p, q) and _seg_dist(b, b, pts[p], pts[q]) < 1.2 * length / ns:
+                            good = False
+                if good:
+                    name = 'P%d' % len(pts)
+                    pts[name] = b
+                    wires.append((a, name, ns) if rnd.random() < 0.5 else (name, a, ns))
+                    break
+            else:
+                ok = False
+                break
+        if ok:
+            return ({k: tuple(float(x) for x in v) for k, v in pts.items()}, wires, ground)
+    raise RuntimeError('no random structure found')
+
+
+def add_random_structures(seed, n):
+    """registers n seeded random structures (half of them over ground) in STRUCTURES; returns their names"""
+    import random
+    names = []
+    for k in range(n):
+        rnd = random.Random('c06-structure/%s/%d' % (seed, k))
+        name = 'random-%s-%d' % (seed, k)
+        STRUCTURES[name] = random_structure(rnd, ground=(k % 2 == 1))
+        names.append(name)
+    return names
 
 
 def point_ids(points, ground):
